@@ -349,6 +349,23 @@ func rewriteFile(path, flags string) ([]byte, bool) {
 			addImport(f, "vschedm", shimBase+"sched")
 		}
 	}
+	if strings.Contains(flags, "f") {
+		n := 0
+		for _, d := range f.Decls {
+			fd, ok := d.(*ast.FuncDecl)
+			if !ok || fd.Body == nil || fd.Name.Name == "init" {
+				continue
+			}
+			call := &ast.ExprStmt{X: &ast.CallExpr{Fun: &ast.SelectorExpr{X: ast.NewIdent("vschedf"), Sel: ast.NewIdent("FuncEntry")},
+				Args: []ast.Expr{&ast.BasicLit{Kind: token.STRING, Value: strconv.Quote(f.Name.Name + "." + fd.Name.Name)}}}}
+			fd.Body.List = append([]ast.Stmt{call}, fd.Body.List...)
+			n++
+		}
+		if n > 0 {
+			changed = true
+			addImport(f, "vschedf", shimBase+"sched")
+		}
+	}
 	if strings.Contains(flags, "g") {
 		n := rewriteGo(f)
 		if n > 0 {
